@@ -159,7 +159,28 @@ def run_tg(solvers, bspline, assemble, c):
     return res
 
 
-def build_hspace(bspline, hierarchical, c):
+STRATS = ('new', 'trunc', 'func_supp', 'cell_supp')
+
+
+def query_sets(hs):
+    """every index-set query of the property on the space as it is now (each call guarded)"""
+    def guard(fn):
+        try:
+            return fn()
+        except Exception as e:  # noqa
+            return {'error': errclass(e), 'msg': str(e)[:200]}
+    L = hs.numlevels
+    out = {}
+    out['dirichlet'] = [guard(lambda lv=lv: tolist(hs.dirichlet_dofs(lv))) for lv in range(L)]
+    out['dirichlet_default'] = guard(lambda: tolist(hs.dirichlet_dofs()))
+    out['non_dirichlet'] = guard(lambda: tolist(hs.non_dirichlet_dofs()))
+    out['smooth'] = {st: guard(lambda st=st: [tolist(a) for a in hs.indices_to_smooth(st)]) for st in STRATS}
+    return out
+
+
+def build_hspace(bspline, hierarchical, c, warm=False):
+    """warm=True: all index-set queries are made on the SAME object after every refinement
+    (a solver run on the intermediate space does exactly that), before the next refinement."""
     kvs = tuple(bspline.make_knots(c['p'][d], 0.0, 1.0, c['n0'][d]) for d in range(c['dim']))
     disparity = np.inf if c['disparity'] is None else c['disparity']
     hs = hierarchical.HSpace(kvs, truncate=c['truncate'], disparity=disparity,
@@ -183,6 +204,8 @@ def build_hspace(bspline, hierarchical, c):
             k = max(1, int(round(rnd['frac'] * len(cells))))
             idx = rs.choice(len(cells), size=k, replace=False)
             sel = [cells[i] for i in sorted(idx)]
+        if warm:
+            query_sets(hs)
         if sel:
             hs.refine({lv: set(sel)})
     return hs
@@ -196,7 +219,7 @@ def run_hs(pyiga_mods, c):
     solvers, bspline, assemble, hierarchical = pyiga_mods
     res = {}
     try:
-        hs = build_hspace(bspline, hierarchical, c)
+        hs = build_hspace(bspline, hierarchical, c, warm=True)      # the object with a query history
         L = hs.numlevels
         res['numlevels'] = L
         res['numdofs'] = int(hs.numdofs)
@@ -204,15 +227,13 @@ def run_hs(pyiga_mods, c):
         res['actfun'] = [sorted([list(map(int, t)) for t in hs.actfun[lv]]) for lv in range(L)]
         res['deactfun'] = [sorted([list(map(int, t)) for t in hs.deactfun[lv]]) for lv in range(L)]
         res['bdspecs'] = [[int(a), int(s)] for (a, s) in hs.bdspecs]
-        res['dirichlet'] = [tolist(hs.dirichlet_dofs(lv)) for lv in range(L)]
-        res['dirichlet_default'] = tolist(hs.dirichlet_dofs())
-        res['non_dirichlet'] = tolist(hs.non_dirichlet_dofs())
-        res['smooth'] = {}
-        for st in ('new', 'trunc', 'func_supp', 'cell_supp'):
-            try:
-                res['smooth'][st] = [tolist(a) for a in hs.indices_to_smooth(st)]
-            except Exception as e:  # noqa
-                res['smooth'][st] = {'error': errclass(e), 'msg': str(e)[:200]}
+        res['disparity'] = None if hs.disparity == np.inf else int(hs.disparity)
+        res.update(query_sets(hs))
+        # the same refinement history on a fresh object that is only queried at the end
+        hs2 = build_hspace(bspline, hierarchical, c, warm=False)
+        res['fresh'] = query_sets(hs2)
+        res['fresh']['same_sets'] = bool(hs2.numlevels == L and all(
+            hs2.actfun[lv] == hs.actfun[lv] and hs2.deactfun[lv] == hs.deactfun[lv] for lv in range(L)))
         res['status'] = 'Ok'
         if not c.get('mg'):
             return res
